@@ -238,17 +238,29 @@ def watercare(sx):
     wc = GeckoWaterCare(F())
     seen = []
     wc.watch(lambda *a: seen.append(a))
-    if sx.choice("none", 2):
+    via = sx.choice("none", 3)
+    if via == 1:
         mode = None
     else:
         mode = sx.int_("mode", 0, 255)
         try:
-            wc.change_watercare_mode(mode)
+            if via == 0:
+                wc.change_watercare_mode(mode)
+            else:
+                # the threaded client's path: the GETWC reply (real handler, real decode) reaches the reply callback
+                import geckolib.driver.protocol as P
+                from sx.loader import STRUCT_SHIM
+                h = P.GeckoWatercareProtocolHandler()
+                h.handle(b"WCGET" + STRUCT_SHIM.pack(">B", mode), None)
+                wc._water_care_handler = h
+                wc._on_watercare(h, None)
             ok, why = True, ""
         except Exception as e:  # noqa
             ok, why = False, repr(e)
-        sx.check(ok, "wc.total.change_watercare_mode", lambda: why)
+        sx.check(ok, "wc.total.change_watercare_mode" if via == 0 else "wc.total.reply-callback", lambda: why)
         sx.check(len(seen) == 1, "wc.change-notified-once")
+        if via == 2:
+            sx.check(wc._water_care_handler is None, "wc.reply-callback-releases-the-pending-request")
     for name, fn in (("mode", lambda: wc.mode), ("modes", lambda: wc.modes), ("str", lambda: wc.__str__()),
                      ("monitor", lambda: wc.monitor), ("repr", lambda: wc.__repr__())):
         try:
